@@ -75,16 +75,16 @@ CHECKS = {
                 "and tiny dictionary page limit, data page size / row limits, write batch size, row-group row limit, codec, statistics level, bloom filter, per-column non-default encodings), serially through ArrowWriter "
                 "or through one ArrowColumnWriter per leaf run as cooperative tasks (a seeded scheduler picks which worker encodes its next leaf and in which order workers close; chunks appended in schema order), read "
                 "back with a tape-chosen batch size and compared with the generated logical rows; distinct = distinct (mode, history, scheduler decisions)",
-        "required_probes": ["probe.several_row_groups", "probe.dictionary_fallback_in_chunk", "probe.explicit_flush", "probe.interleaved_column_writers", "probe.enc.delta_length_byte_array", "probe.enc.delta_binary_packed", "probe.enc.byte_stream_split"],
+        "required_probes": ["probe.several_row_groups", "probe.dictionary_fallback_in_chunk", "probe.explicit_flush", "probe.page_store_spill", "probe.interleaved_column_writers", "probe.enc.delta_length_byte_array", "probe.enc.delta_binary_packed", "probe.enc.byte_stream_split"],
         "components": {
             "real": ["parquet::arrow::ArrowWriter, ArrowRowGroupWriterFactory, ArrowColumnWriter, compute_leaves, ArrowColumnChunk::append_to_row_group, SerializedFileWriter", "all value / level encoders and decoders, codecs",
                      "ParquetRecordBatchReaderBuilder / ParquetRecordBatchReader"],
             "stub": ["the caller's write history", "the column-writer workers' scheduler (cooperative tasks instead of threads)"],
-            "not_run": ["real threads for the column writers", "PageStore spilling", "content-defined chunking", "run-end encoded and list-view columns", "AsyncArrowWriter (I/O faults on it are C18's matter)"],
+            "not_run": ["real threads for the column writers", "content-defined chunking", "run-end encoded and list-view columns", "AsyncArrowWriter (I/O faults on it are C18's matter)"],
         },
         "level_text": "seeded exploration of write histories, writer configurations and column-writer schedules against the logical rows the table was generated from (the oracle never uses arrow's ==); sampling, not proof",
         "design_ref": "DESIGN.md section 4 (C05), section 11",
-        "level_note": "zero-width fixed-size types are exercised in a scenario of their own (the writer's panic on them is a known finding); run-end encoded / list-view columns, CDC and PageStore spilling are not exercised; "
+        "level_note": "zero-width fixed-size types are exercised in a scenario of their own (the writer's panic on them is a known finding); run-end encoded / list-view columns and CDC are not exercised; a quarter of the serial runs route completed pages through a spill store with opaque non-dense keys; "
                       "the column writers run as cooperative tasks on one thread (their interleaving is the scheduler's, not the OS's); returned batches must also pass ArrayData::validate_full (trusted)",
         "technique": "deterministic simulation: seeded write histories and a seeded scheduler over independent column-writer tasks, reference = the logical rows the data was generated from; tape replay + shrinking",
         "assumptions": TRUSTED + [
